@@ -7,14 +7,15 @@ package builder
 import (
 	"github.com/roddhjav/apparmor.d/pkg/prebuild"
 	"github.com/roddhjav/apparmor.d/pkg/util"
+	"regexp"
 )
 
 var (
 	regAbi4To3 = util.ToRegexRepl([]string{
-		`abi/4.0`, `abi/3.0`,
-		`  userns,`, `  # userns,`,
-		`  mqueue`, `  # mqueue`,
+		`<abi/4.0>`, `<abi/3.0>`,
 	})
+	// The rules AppArmor 3 does not know: at the start of a line (not a mount source called mqueue)
+	regAbi4Rules = regexp.MustCompile(`(?m)^([\t ]*)(userns,|mqueue\b)`)
 )
 
 type ABI3 struct {
@@ -31,5 +32,6 @@ func init() {
 }
 
 func (b ABI3) Apply(opt *Option, profile string) (string, error) {
+	profile = regAbi4Rules.ReplaceAllString(profile, "${1}# ${2}")
 	return regAbi4To3.Replace(profile), nil
 }
